@@ -44,7 +44,8 @@ def budget(tier):
 
 
 META = [b"(", b")", b"[", b"]", b"{", b"}", b"*", b"+", b"?", b"|", b"\\", b"^", b"$", b".", b"-", b",", b":", b"[:", b":]", b"[=", b"\\<", b"\\>",
-        b"{1,2}", b"{3,1}", b"{2,0}", b"a{1,0}", b"{0,0}", b"{,0}", b"(ab){3,0}", b"{200}", b"{1,200}", b"{,}", b"{99999999999}", b"{-1}", b"a{2}{3}", b"[[:alpha:]]", b"[[:", b"[^", b"[]", b"[a-", b"[z-a]",
+        b"{1,2}", b"{3,1}", b"(((((((((((((a{3}){3}){2}){4}){4}){3}){2}){3}){3}){3}){2}){2}){2})", b"((((((((((((((((a{2}){2}){2}){2}){2}){2}){2}){2}){2}){2}){2}){2}){2}){2}){2}){2})",
+        b"foo{9999}", b"ba{3,1}", b"ya{200}", b"b|a{3,1}", b"{2,0}", b"a{1,0}", b"{0,0}", b"{,0}", b"(ab){3,0}", b"{200}", b"{1,200}", b"{,}", b"{99999999999}", b"{-1}", b"a{2}{3}", b"[[:alpha:]]", b"[[:", b"[^", b"[]", b"[a-", b"[z-a]",
         b"(a)" * 33, b"(" * 70 + b"a" + b")" * 70, b"a?" * 40, b"(a|b)", b"\xc3", b"\xe6\x97", b"\xf0\x9f\x98", b"\xf6", b"\xff", b"\x80", b"\xc3\xa9", b"\xe6\x97\xa5"]
 piece = st.one_of(st.sampled_from(META), st.sampled_from(META), st.binary(min_size=1, max_size=4), st.sampled_from([b"a", b"b", b"ab", b"1", b" "]))
 pattern_bytes = st.lists(piece, min_size=1, max_size=10).map(b"".join).map(lambda b: b.replace(b"\x00", b"a").replace(b"\n", b"b")[:300])
@@ -59,6 +60,16 @@ def _explosive(patb):
         return rxgen.explosive(patb.decode("latin-1"))
     except RecursionError:
         return True
+
+
+_NREPS = {}
+
+
+def _nreps(env):
+    if "v" not in _NREPS:
+        m = re.search(r"#define\s+NREPS\s+(\d+)", open(os.path.join(env.paths["src"], "regex.c")).read())
+        _NREPS["v"] = int(m.group(1)) if m else 128
+    return _NREPS["v"]
 
 
 def _check_pat(p, patb, icase):
@@ -105,6 +116,24 @@ def run_case(env, c):
         return Outcome(False, True, ["probe_crash"], detail={"why": "memory error while compiling/matching", "pat": patb, "err": e.err[-1800:]})
     except probe.ProbeTimeout:
         return Outcome(True, False, ["probe_timeout_inconclusive"], inconclusive=True)
+    # a repetition with invalid bounds (above the limit, or maximum below minimum) rejects the pattern - it must not be dropped
+    # together with the rest of the pattern while what stands before it is compiled (judged only where a brace is plainly an
+    # operator: right after a letter or a closing parenthesis, no brackets or backslashes in the pattern)
+    if r[0] and b"[" not in patb and b"]" not in patb and b"\\" not in patb and all(x < 0x80 for x in patb) and \
+            b"{" not in re.sub(rb"(?<=[a-z)])\{\d{1,9}(,\d{0,9})?\}", b"", patb):       # (every brace is a well-formed interval after an atom)
+        for m in re.finditer(rb"[a-z)]\{(\d{1,9})(,(\d{0,9}))?\}", patb):
+            lo = int(m.group(1))
+            hi = lo if m.group(2) is None else (-1 if m.group(3) == b"" else int(m.group(3)))
+            if lo > _nreps(env) or hi > _nreps(env) or (0 <= hi < lo):
+                return Outcome(False, True, ["compiled", "invalid_bounds_accepted"],
+                               detail={"why": "the pattern has a repetition with invalid bounds {%d,%d} but was compiled (as what stands before it?)" % (lo, hi), "pat": patb, "result": r})
+    if r[0] and b"[" not in patb and b"\\" not in patb and b"{" not in patb and all(x < 0x80 for x in patb):     # (an unterminated { takes the next character for its })
+        dep = 0         # (over the pattern as rset_make wraps it: "((" pattern "))" - so that ")(" is, oddly, balanced)
+        for ch in b"((" + patb + b"))":
+            dep += 1 if ch == 0x28 else (-1 if ch == 0x29 else 0)
+            if dep < 0:
+                return Outcome(False, True, ["compiled", "unbalanced_accepted"],
+                               detail={"why": "the pattern closes a parenthesis it never opened but was compiled (as its prefix?)", "pat": patb, "result": r})
     pj, used = rxgen.parse("((" + patb.decode("latin-1") + "))")
     malformed = pj is None or used != len(patb) + 4
     nt = (bool(r[0]) and malformed) or not r[0]
@@ -161,6 +190,10 @@ def _sweep_patterns(k):
         (b"a{%d,}" % k, a * (k + 1)),
         (b"a{1,%d}b" % k, a * k + b"b"),
         (b"a{%d,0}" % k, a * k),
+        # nested counted repetitions: the program size is the PRODUCT of the counts (2^k, 3^k instructions)
+        (b"(" * min(k, 40) + a + b"){2}" * min(k, 40), a * (2 ** min(k, 12))),
+        (b"(" * min(k, 30) + a + b"){3}" * min(k, 30), a * (3 ** min(k, 8))),
+        (b"(" * min(k, 20) + b"a{%d}" % (k % 7 + 2) + b"){4}" * min(k, 20), a * 64),
         (b"(ab){%d,0}c" % k, b"ab" * k + b"c"),
         (b"a{%d,%d}" % (k, max(0, k - 1)), a * k),
         (b"(a){%d}" % k, a * k),
